@@ -133,35 +133,28 @@ Definition discr_documented (field: string) (reg: list (pv * (pv -> res pv))) (v
   r = Exn XNoVariant \/
   exists tag dec, reg_lookup reg tag = Some dec /\ r = dec v.
 
-Definition C05_discr_full : Prop := forall field reg v, discr_documented field reg v (discr_run field reg v).
-
-Theorem C05_discr_partial : forall field reg kvs,
-  (forall tag, d_lookup kvs (VStr field) = Some tag -> hashable tag = true) ->
-  discr_documented field reg (VDict kvs) (discr_run field reg (VDict kvs)).
+(* holds for every input since the dispatcher answers a non-mapping with ValueError and an unhashable tag with
+   SuitableVariantNotFoundError (fixes C05-discriminator-nonmapping / C05-discriminator-unhashable-tag) *)
+Theorem C05_discr : forall field reg v, discr_documented field reg v (discr_run field reg v).
 Proof.
-  intros field reg kvs Hh. destruct (discr_outcomes field reg kvs Hh) as [H|[H|[tag [dec [_ [Hr H]]]]]].
-  - right; left; exact H.
-  - right; right; left; exact H.
-  - right; right; right. exists tag, dec. auto.
+  intros field reg v. destruct v;
+    try (left; split; reflexivity).
+  unfold discr_run. cbn [py_getitem_str].
+  destruct (d_lookup kvs (VStr field)) as [tag|] eqn:El; [|right; left; reflexivity].
+  destruct (hashable tag) eqn:Eh; cbn [negb]; [|right; right; left; reflexivity].
+  destruct (discr_outcomes field reg kvs) as [H|[H|[tag' [dec [Hl [Hr H]]]]]].
+  - intros t Ht. rewrite El in Ht. inversion Ht; subst. exact Eh.
+  - unfold discr_run in H. cbn [py_getitem_str] in H. rewrite El, Eh in H. cbn [negb] in H. right; left; exact H.
+  - unfold discr_run in H. cbn [py_getitem_str] in H. rewrite El, Eh in H. cbn [negb] in H. right; right; left; exact H.
+  - unfold discr_run in H. cbn [py_getitem_str] in H. rewrite El, Eh in H. cbn [negb] in H.
+    right; right; right. exists tag', dec. auto.
 Qed.
-Print Assumptions C05_discr_partial.
+Print Assumptions C05_discr.
 
-(* Base.from_dict([1]) -> TypeError (known finding discriminator-nonmapping) *)
-Theorem C05_discr_nonmapping_refuted : ~ C05_discr_full.
-Proof.
-  intro H. specialize (H "type" [] (VList [VInt 1])). cbv in H.
-  destruct H as [[H _]|[H|[H|[tag [dec [H _]]]]]]; discriminate H.
-Qed.
-Print Assumptions C05_discr_nonmapping_refuted.
-
-(* Base.from_dict({"type": [1]}) -> TypeError: unhashable (known finding discriminator-unhashable-tag) *)
-Theorem C05_discr_unhashable_refuted :
-  exists field reg kvs, ~ discr_documented field reg (VDict kvs) (discr_run field reg (VDict kvs)).
-Proof.
-  exists "type", [], [(VStr "type", VList [VInt 1])]. cbv.
-  intros [[H _]|[H|[H|[tag [dec [H _]]]]]]; discriminate H.
-Qed.
-Print Assumptions C05_discr_unhashable_refuted.
+Example C05_discr_ex_nonmapping : discr_run "type" [] (VList [VInt 1]) = Exn XValueError.
+Proof. reflexivity. Qed.
+Example C05_discr_ex_unhashable : discr_run "type" [] (VDict [(VStr "type", VList [VInt 1])]) = Exn XNoVariant.
+Proof. reflexivity. Qed.
 
 Theorem C05_discr_nofield : forall variants v,
   Forall (fun dec => match dec v with Exn e => is_exception e = true | Ok _ => True end) variants ->
